@@ -356,6 +356,13 @@ impl Exec {
         let r = guard(|| Square::from_str(text)).map_err(|p| viol("C13", "totality/panic/square", format!("{:?}: {}", text, p)))?;
         let well = parse_sq(text);
         self.eval(fp64(text.as_bytes()) ^ 0x5151, well.is_none());
+        #[allow(deprecated)]
+        {
+            let r2 = guard(|| Square::from_string(text.to_string())).map_err(|p| viol("C13", "totality/panic/square_from_string", format!("{:?}: {}", text, p)))?;
+            if r2 != r.as_ref().ok().cloned() {
+                return Err(viol("C13", "consistency/from_string_differs_from_from_str", format!("{:?}", text)));
+            }
+        }
         match (&r, well) {
             (Ok(v), _) => {
                 let back = format!("{}", v);
@@ -476,6 +483,15 @@ impl Exec {
         if rb.is_ok() != rg.is_ok() {
             return Err(viol("C07", "consistency/board_and_game_disagree", format!("{:?}", text)));
         }
+        // the older entry points to the same conversion
+        #[allow(deprecated)]
+        {
+            let r1 = guard(|| Board::from_fen(text.to_string())).map_err(|p| viol("C07", "totality/panic/from_fen", format!("{:?}: {}", text, p)))?;
+            let r2 = guard(|| Game::new_from_fen(text)).map_err(|p| viol("C07", "totality/panic/new_from_fen", format!("{:?}: {}", text, p)))?;
+            if r1.is_some() != rb.is_ok() || r2.is_some() != rb.is_ok() || (r1.is_some() && r1 != rb.as_ref().ok().cloned()) {
+                return Err(viol("C07", "consistency/deprecated_entry_points_disagree", format!("{:?}", text)));
+            }
+        }
         match rb {
             Ok(b) => {
                 self.stats.cnt("reach.text_accepted");
@@ -565,6 +581,13 @@ impl Exec {
             }
         }
         let (oa, ob) = (observe(&ba), observe(&bb));
+        // every pair member also enters the batch-wide census (siblings of one base against each other,
+        // and against every position any run visits)
+        for (o, brd) in [(&oa, &ba), (&ob, &bb)] {
+            let q = pos_from_observed(o);
+            let kb = q.key_beside();
+            self.stats.keys.push((fp64(&kb), crate::rng::fp64b(&kb), brd.get_hash()));
+        }
         let mut f = Fnv::new();
         f.str(a);
         f.str(b);
